@@ -100,7 +100,7 @@ theorem atomic_roundtrip (s : Simp) (cs : CState) (op t ao al ro rl : Nat) (rest
     or pops the top one (the running frame ended): a suspended caller — its state, its snapshot — is never modified
     while its callee, and whatever that calls, runs. -/
 theorem conts_discipline {s : Simp} {o : Oracle} {cfg : Cfg} {codes : List (Nat × List Nat)} {cs cs' : CState}
-    (hnc : cfg.create = false) (h : cs' ∈ (stepC s o cfg codes cs).next) :
+    (hnc : cfg.create = false ∨ cfg.balances = false) (h : cs' ∈ (stepC s o cfg codes cs).next) :
     cs'.conts = cs.conts ∨ (∃ k, cs'.conts = k :: cs.conts) ∨ (∃ k, cs.conts = k :: cs'.conts) :=
   stepC_conts hnc h
 
@@ -120,9 +120,9 @@ theorem create_frame_model (s : Simp) (cs : CState) (addr : Nat) (rest : List HV
       (createFrame s cs addr rest init cv sb).env.caller = cs.env.address ∧
       (createFrame s cs addr rest init cv sb).env.callvalue = cv ∧
       (createFrame s cs addr rest init cv sb).env.isStatic = false ∧
-      codeOf (createFrame s cs addr rest init cv sb).st.created addr = some [] ∧
+      codeOf (createFrame s cs addr rest init cv sb).created addr = some [] ∧
       (createFrame s cs addr rest init cv sb).st.storage = [] ∧
-      (createFrame s cs addr rest init cv sb).st.nonce = cs.st.nonce ∧
+      (createFrame s cs addr rest init cv sb).nonce = cs.nonce ∧
       (createFrame s cs addr rest init cv sb).st.path = cs.st.path := by
   have hsto : ∀ a, stoOf (stoSet cs.stores cs.this
       { storage := cs.st.storage, transient := cs.st.transient }) a = viewOf cs a := by
@@ -138,8 +138,8 @@ theorem create_fail_model (cs : CState) (k : Cont) (ks : List Cont) (hc : cs.con
     (h : Evm.Halt) (ho : e.out = .halt h) (ht : e.tag = .normal) (hf : haltOk h = false) (addr : Nat)
     (hk : k.create = some addr) :
     ∃ cs', (frameEnd cs e).next = [cs'] ∧ (frameEnd cs e).ends = [] ∧
-      cs'.stores = k.snapshot ∧ cs'.logs = k.snapLogs ∧ cs'.bal = k.snapBal ∧ cs'.st.created = k.st.created ∧
-      cs'.st.nonce = e.st.nonce ∧ cs'.st.stack = .bv 256 (.con 0) :: k.st.stack ∧
+      cs'.stores = k.snapshot ∧ cs'.logs = k.snapLogs ∧ cs'.bal = k.snapBal ∧ cs'.created = k.snapCreated ∧
+      cs'.nonce = cs.nonce ∧ cs'.st.stack = .bv 256 (.con 0) :: k.st.stack ∧
       cs'.st.returndata = haltData h e.data ∧ cs'.st.mem = k.st.mem ∧ cs'.st.pc = k.st.pc + 1 ∧
       cs'.st.path = e.st.path ∧ cs'.conts = ks ∧ cs'.this = k.this ∧ cs'.code = k.code := by
   have hfe : frameEnd cs e = createEnd cs (fullOf cs e) k ks h e addr := by
@@ -154,13 +154,13 @@ theorem create_success_model (cs : CState) (k : Cont) (ks : List Cont) (hc : cs.
     (hk : k.create = some addr) (code : List Nat) (hlit : litBytes? e.data = some code) :
     ∃ cs', (frameEnd cs e).next = [cs'] ∧ (frameEnd cs e).ends = [] ∧
       cs'.stores = fullOf cs e ∧ cs'.logs = cs.logs ∧ cs'.bal = cs.bal ∧
-      codeOf cs'.st.created addr = some code ∧ cs'.st.nonce = e.st.nonce ∧
+      codeOf cs'.created addr = some (code.map (· % 256)) ∧ cs'.nonce = cs.nonce ∧
       cs'.st.stack = .bv 256 (.con addr) :: k.st.stack ∧ cs'.st.returndata = [] ∧ cs'.st.mem = k.st.mem ∧
       cs'.st.pc = k.st.pc + 1 ∧ cs'.st.path = e.st.path ∧ cs'.conts = ks := by
   have hfe : frameEnd cs e = createEnd cs (fullOf cs e) k ks h e addr := by
     unfold frameEnd; simp only [hc, ho, ht, hk]; rfl
   have hce : createEnd cs (fullOf cs e) k ks h e addr =
-      { next := [{ (resume (fullOf cs e) cs.logs cs.bal k ks h e) with st := { (resume (fullOf cs e) cs.logs cs.bal k ks h e).st with stack := .bv 256 (.con addr) :: k.st.stack, mem := k.st.mem, returndata := [], created := (addr, code) :: e.st.created } }] } := by
+      { next := [{ (resume (fullOf cs e) cs.logs cs.bal cs.created cs.nonce k ks h e) with st := { (resume (fullOf cs e) cs.logs cs.bal cs.created cs.nonce k ks h e).st with stack := .bv 256 (.con addr) :: k.st.stack, mem := k.st.mem, returndata := [] }, created := (addr, code.map (· % 256)) :: cs.created }] } := by
     unfold createEnd; rw [if_pos hf]; simp only [hlit]
   rw [hfe, hce]
   refine ⟨_, rfl, rfl, ?_, ?_, ?_, ?_, rfl, rfl, rfl, rfl, rfl, rfl, rfl⟩
@@ -189,9 +189,9 @@ theorem atomic_spec {p : Evm.Params} {w w1 : Evm.World} {f f1 : Evm.Frame} {kind
             mem := Evm.writeBytes ((f1.touch ao al).touch ro rl).mem ro (r1.2.data.take (min rl r1.2.data.length))
             returndata := r1.2.data
             pc := ((f1.touch ao al).touch ro rl).pc + 1 } r := by
-  have hw : resumeWorld ⟨w1, (f1.touch ao al).touch ro rl, ro, rl⟩ r1 = { w1 with created := r1.1.created } := by
+  have hw : resumeWorld ⟨w1, (f1.touch ao al).touch ro rl, ro, rl, none⟩ r1 = { w1 with created := r1.1.created } := by
     simp [resumeWorld, hfail]
-  have hf' : resumeFrame ⟨w1, (f1.touch ao al).touch ro rl, ro, rl⟩ r1.2 =
+  have hf' : resumeFrame ⟨w1, (f1.touch ao al).touch ro rl, ro, rl, none⟩ r1.2 =
       { (f1.touch ao al).touch ro rl with
           stack := 0 :: ((f1.touch ao al).touch ro rl).stack
           mem := Evm.writeBytes ((f1.touch ao al).touch ro rl).mem ro (r1.2.data.take (min rl r1.2.data.length))
@@ -211,33 +211,35 @@ theorem atomic_spec {p : Evm.Params} {w w1 : Evm.World} {f f1 : Evm.Frame} {kind
 
 /-! ### atomicity: the link -/
 
-/-- **atomic_sim.** In the simulation behind `C01.sound_calls` / `C02.complete_calls`: the running frame is a callee,
-    related to the concrete frame `f` (suspended concrete callers `kcs`), which terminates with `r1`; the model's end
-    state `e` reports `r1` and it is a failure. Then the concrete caller on top of `kcs` resumes in *its call-time
-    world* `kc.w`, that world is described by the model's snapshot (maps of all modelled accounts, log, balances), and the
-    model's resumed state is related to the reference's resumed caller. -/
+/-- **atomic_sim.** In the simulation behind `C01.sound_calls` / `C02.complete_calls`: the running frame is a callee
+    or a constructor, related to the concrete frame `f` (suspended concrete callers `kcs`), which terminates with `r1`;
+    the model's end state `e` reports `r1` and it is a failure. Then the concrete caller on top of `kcs` resumes in
+    *its call-time world* `kc.w` (only the allocator keeps its advance), that world is described by the model's
+    snapshot (maps of all modelled accounts, log, balances, created accounts), and the model's resumed state is related
+    to the reference's resumed caller. -/
 theorem atomic_sim {I : Interp} {p : Evm.Params} {S : Nat → Prop} {w0 : Evm.World} {cs : CState} {w : Evm.World}
     {f : Evm.Frame} {kcs : List CCont} (hrel : RelC I p S w0 cs w f kcs) {k : Cont} {ks : List Cont}
     (hc : cs.conts = k :: ks) {r1 : Evm.World × Evm.Halt} (hh : Halts p w f r1) {h : Evm.Halt} {e : EndState}
     (hres : haltWith h (e.data.map (·.eval I)) = r1.2) (hdwf : ∀ b ∈ e.data, b.WF ∧ b.width = 8)
     (hk : Keeps e.st cs.st)
-    (hW : WRelM I S w0 r1.1 (stoOf (fullOf cs e)) (evalLogs I cs.logs) (balSem I w0 cs.bal))
+    (hW : WRelM I S (wd w0 cs.created cs.nonce) r1.1 (stoOf (fullOf cs e)) (evalLogs I cs.logs)
+      (balSem I w0 cs.bal))
     (hf : haltOk h = false) :
-    ∃ kc kcs', kcs = kc :: kcs' ∧ resumeWorld kc r1 = kc.w ∧
-      WRelM I S w0 kc.w (stoOf k.snapshot) (evalLogs I k.snapLogs) (balSem I w0 k.snapBal) ∧
-      RelC I p S w0 (resume (fullOf cs e) cs.logs cs.bal k ks h e) kc.w (resumeFrame kc r1.2) kcs' ∧
-      ∀ r, RunStack p w f kcs r ↔ RunStack p kc.w (resumeFrame kc r1.2) kcs' r := by
+    ∃ kc kcs', kcs = kc :: kcs' ∧ resumeWorld kc r1 = { kc.w with created := r1.1.created } ∧
+      WRelM I S (wd w0 k.snapCreated cs.nonce) (resumeWorld kc r1) (stoOf k.snapshot) (evalLogs I k.snapLogs)
+        (balSem I w0 k.snapBal) ∧
+      (∀ cs' ∈ (frameEndH cs k ks h e).next,
+        RelC I p S w0 cs' (resumeWorld kc r1) (resumeFrame kc r1.2) kcs') ∧
+      ∀ r, RunStack p w f kcs r ↔ RunStack p (resumeWorld kc r1) (resumeFrame kc r1.2) kcs' r := by
   obtain ⟨kc, kcs', hkcs, hrel', hiff⟩ := (frame_end hrel hh hres hdwf hk hW).2 k ks hc
   have hconts := hrel.conts
   rw [hc, hkcs] at hconts
   cases hconts with
   | cons hk1 _ =>
-    have hsucc : r1.2.isSuccess = false := by rw [← hres, haltWith_isSuccess, hf]
-    have hcr : r1.1.created = kc.w.created := hW.created.trans hk1.hW.created.symm
-    have hw : resumeWorld kc r1 = kc.w := by
-      simp only [resumeWorld, hsucc, Bool.false_eq_true, if_false, hcr]
-    rw [hw] at hrel' hiff
-    exact ⟨kc, kcs', hkcs, hw, hk1.hW, hrel', hiff⟩
+    have hsucc : r1.2.isSuccess = haltOk h := by rw [← hres, haltWith_isSuccess]
+    have hw : resumeWorld kc r1 = { kc.w with created := r1.1.created } := by
+      simp only [resumeWorld, hsucc, hf, Bool.false_eq_true, if_false]
+    exact ⟨kc, kcs', hkcs, hw, resume_world hk1 hsucc hf hW.created, hrel', hiff⟩
 
 /-! ### the context of a callee -/
 
